@@ -52,6 +52,7 @@ AM3 = {  # a non-final state without outgoing transitions (the library only warn
     "transitions": [
         {"src": "p", "tgt": "q", "events": ["park"]},
         {"src": "p", "tgt": "r", "events": ["end"], "unless": ["u1"]},
+        {"src": "p", "tgt": "q", "events": []},  # declared in the class body but bound to no event: still a transition of the machine
     ],
     "methods": {"machine": ["u1"]},
 }
@@ -78,13 +79,13 @@ BUDGET = {
 }
 BOUNDS = {
     "quick": "three templates (4, 4 and 3 states; one with a non-final state that has no outgoing transition; two transitions that differ only in their guard, a transition bound to two events, external self transition, internal "
-    "transitions with and without an action, cond and unless guards, one and two final states, state values 1, 0, '' and a string); the class, and an instance in "
+    "transitions with and without an action, cond and unless guards, one and two final states, state values 1, 0, '' and a string); a transition bound to no event; the class, and an instance (also one created with start_value) in "
     "every state (reached by writing the state and by sending events); nodes, initial pseudo-node and edge, one edge per external transition with source, target, "
     "events and guards, internal transitions inside the node label and not as edges, double border exactly on final states, highlight exactly on the current state.",
     "thorough": "same (exhausted at quick).",
 }
 OUTSIDE = "rendering to image formats (graphviz binaries); fonts, colours other than the highlight; other templates"
-OBLIGATIONS = ["generator-object-reused", "class-graph", "instance-graph", "current-state-falsy-value", "parallel-edges-differing-in-guard", "internal-in-label", "final-double-border"]
+OBLIGATIONS = ["instance-with-start-value", "generator-object-reused", "class-graph", "instance-graph", "current-state-falsy-value", "parallel-edges-differing-in-guard", "internal-in-label", "final-double-border"]
 ASSUMPTIONS = [
     "edge labels are parsed as '<events separated by blanks>' optionally followed by a line '[guard, !unless-guard, ...]' (the library's documented rendering)",
     "the highlight is recognised by a fill colour different from the other nodes' and/or a pen width attribute",
@@ -115,7 +116,13 @@ def run(ctx, params):
         subject = r["cls"]
         ctx.cover("class-graph")
     else:
-        sm = r["cls"]()
+        nonfinal = [s_ for s_ in am["states"] if not s_.get("initial")]
+        if params["how"] == "write" and ctx.choose(2, "start_value"):
+            sv = nonfinal[0]
+            sm = r["cls"](start_value=sv.get("value") if sv.get("value") is not None else sv["id"])
+            ctx.cover("instance-with-start-value")
+        else:
+            sm = r["cls"]()
         ci = ctx.choose(len(ids), "current")
         if params["how"] == "write":
             cur = ids[ci]
